@@ -254,10 +254,19 @@ public:
    */
   AssociationGraphImplObserver<N, E, GraphImpl>& operator=(bpp::AssociationGraphImplObserver<N, E, GraphImpl> const& graphObserver)
   {
-    this->graphidToN_.resize(graphObserver.graphidToN_.size());
-    this->graphidToE_.resize(graphObserver.graphidToE_.size());
-    this->indexToN_.resize(graphObserver.indexToN_.size());
-    this->indexToE_.resize(graphObserver.indexToE_.size());
+    if (this == &graphObserver)
+      return *this;
+
+    // leaving the graph observed so far, and forgetting everything about it
+    getGraph()->unregisterObserver(this);
+    NToGraphid_.clear();
+    EToGraphid_.clear();
+    NToIndex_.clear();
+    EToIndex_.clear();
+    this->graphidToN_.assign(graphObserver.graphidToN_.size(), Nref());
+    this->graphidToE_.assign(graphObserver.graphidToE_.size(), Eref());
+    this->indexToN_.assign(graphObserver.indexToN_.size(), Nref());
+    this->indexToE_.assign(graphObserver.indexToE_.size(), Eref());
 
     for (const auto& itN:graphObserver.NToGraphid_)
     {
